@@ -21,7 +21,7 @@ out = []
 out.append("### 9.6 Validation of the machinery: seeded changes, reverted fixes, determinism\n")
 out.append("`./selftest seeded` applies every change under `/verif/seeded/<id>/<variant>/patch.diff` to a scratch worktree of")
 out.append("`/repo` (never to `/repo` itself) and runs the quick tier of the checks with `VERIF_REPO=<worktree>`.")
-out.append(f"The {len(res)} changes were written in seven rounds by independent sub-agents that saw only the text of one property (rounds 2 to 7")
+out.append(f"The {len(res)} changes were written in eight rounds by independent sub-agents that saw only the text of one property (rounds 2 to 8")
 out.append("also one-paragraph summaries of the earlier changes to avoid) and a scratch worktree - nothing from `/verif`.")
 out.append("Each was confirmed by the builder before being kept: the patch applies, the repository's whole suite (51 tests + 6")
 out.append("doc-tests) passes with it, its demonstration fails with it and passes without it (`meta.json` records the commands).")
@@ -48,6 +48,9 @@ out.append("requests, near-colliding tags); each is a dimension, not the mutant'
 out.append("were also given the list of defect families already used and six unused directions): the additions are the")
 out.append("'sixth round' list of section 9.5; several were written from the directions before the changes were run. Round 7")
 out.append("(variants m, n; seven further directions; the C03 agent found one change only): see the 'seventh round' list.")
+out.append("Round 8 (variants o, p; three agents found one change only) was run against the checks as they stood: 17 of 31")
+out.append("completed runs caught, 14 missed (C01/o?, C02/o?, C02/p?, C06/p, C08/o, C09/o, C09/p, C10/p, C11/p, C13/o, C16/o,")
+out.append("C16/p, C18/p and the build-configuration family before the second build existed); see the 'eighth round' list.")
 out.append("")
 out.append("**Not caught: C04/g and C17/k (the same limit).** C17/k compresses a derivation key longer than one cipher block")
 out.append("(166 bytes) with a digest under a new private label, so a measurement M1 longer than 166 bytes and the 32-byte")
